@@ -2,6 +2,7 @@ pub mod codec;
 pub mod core;
 pub mod drop;
 pub mod lifecycle_check;
+pub mod malformed;
 pub mod recovery;
 pub mod spectator;
 pub mod synctest;
@@ -17,6 +18,7 @@ pub fn judge_for(prop: &str) -> JudgeFn {
         "C05" => recovery::judge,
         "C06" => spectator::judge,
         "C07" => drop::judge,
+        "C08" => malformed::judge,
         "C12" => lifecycle_check::judge,
         _ => core::no_judge,
     }
